@@ -40,6 +40,8 @@ InitObs(P) ==
     fl    |-> <<>>,         \* compositions (sets of items) of the scheduler's flushes so far
     ovf   |-> FALSE,        \* a synchronous call has just failed with the runaway-recursion RuntimeError (scheduler reset)
     nflush |-> 0,           \* scheduler flushes of the current outermost call
+    clk   |-> 0,            \* virtual clock: advances by t at the start of every segment of task t and by 1 at its end (only task code takes time)
+    tm    |-> EmptyFn,      \* AsyncTimer context -> [acc |-> time the property says it was active for, loose |-> the property does not say]
     ncall |-> 0 ]
 
 (* ---------------- derived notions -------------------------------------------------------------- *)
@@ -87,6 +89,22 @@ CtxRunClauses(S, u) ==
              IN IfBad(mustOn => S.ctx[c].st = "on", "C06.run.on") \cup
                 IfBad(mustOff => S.ctx[c].st = "off", "C06.run.off")
            : c \in {c \in OpenCtx(S) : S.ctx[c].ty # "nonasync"} }
+
+(* AsyncTimer (a library AsyncContext): the time it reports is the time spent in code during which C06 says the context
+   is active - the owner's own code and the tasks only it awaits.  A segment of a task the owner shares with others
+   is not covered by the property: the timer is then left unjudged. *)
+TimerTick(S, u, w) ==
+  IF S.wait = <<>> THEN [c \in DOMAIN S.tm |-> [S.tm[c] EXCEPT !.loose = TRUE]] ELSE
+  LET root == S.wait[1]
+      reach == Reach(S, root)
+  IN [c \in DOMAIN S.tm |->
+        IF c \notin OpenCtx(S) THEN S.tm[c]
+        ELSE LET o == S.ctx[c].owner
+                 mustOn == u \in reach /\ (o = u \/ u \notin ReachAvoid(S, root, o))
+                 mustOff == u \in reach /\ o # u /\ u \notin Reach(S, o)
+             IN IF mustOn THEN [S.tm[c] EXCEPT !.acc = @ + w]
+                ELSE IF mustOff THEN S.tm[c]
+                ELSE [S.tm[c] EXCEPT !.loose = TRUE]]
 
 (* the innermost enclosing override of variable x seen from running task u, for tree-shaped programs:
    walk from u up through its unique parents *)
@@ -141,9 +159,10 @@ Step(S, e) ==
                                /\ S.ts[o[i]].seg = 0 /\ ~FutDone(S, o[i])
                                /\ Parents(S, o[i]) = {p} /\ Parents(S, e.t) = {p}
                                /\ o[i] \notin Range(S.wait) /\ e.t \notin Range(S.wait)
-            S1 == [S EXCEPT !.ts[e.t].st = "running", !.ts[e.t].seg = e.k, !.ts[e.t].thrown = 0,
+            S0 == [S EXCEPT !.ts[e.t].st = "running", !.ts[e.t].seg = e.k, !.ts[e.t].thrown = 0,
                             !.ts[e.t].ys = Val("N", 0, <<>>),
                             !.run = Append(@, e.t), !.fresh = {}]
+            S1 == [S0 EXCEPT !.clk = @ + e.t, !.tm = TimerTick(S0, e.t, e.t)]
             bads ==
               IfBad(e.k = T.seg + 1 /\ T.st \in {"created", "waiting"} /\ ~FutDone(S, e.t), "C03.once") \cup
               IfBad(e.xs = <<>> /\ \A f \in Leaves(T.ys) : FutDone(S, f), "C03.ready") \cup
@@ -173,7 +192,8 @@ Step(S, e) ==
                             !.ts[e.t].ys = IF isYield THEN e.s ELSE Val("N", 0, <<>>),
                             !.ts[e.t].catch = IF isYield THEN seg.term.catch ELSE FALSE,
                             !.ts[e.t].ord = ord,
-                            !.fresh = {}]
+                            !.fresh = {},
+                            !.clk = @ + 1, !.tm = TimerTick(S, e.t, 1)]
         IN [S |-> S1,
             bad |-> IfBad(~S.ovf => e.a = e.t, "C08.active") \cup
                     IfBad(S.run # <<>> /\ Last(S.run) = e.t /\ S.ts[e.t].seg = e.k, "H.segend") \cup
@@ -313,7 +333,8 @@ Step(S, e) ==
 
     [] e.e = "Enter" ->
         [S |-> [S EXCEPT !.ctx = Upd(@, e.a, [owner |-> e.t, st |-> "new", ty |-> P.ctxs[e.a].type,
-                                              ord |-> Cardinality(DOMAIN S.ctx) + 1])],
+                                              ord |-> Cardinality(DOMAIN S.ctx) + 1]),
+                         !.tm = IF P.ctxs[e.a].type = "timer" THEN Upd(@, e.a, [acc |-> 0, loose |-> FALSE]) ELSE @],
          bad |-> IfBad(S.run # <<>> /\ Last(S.run) = e.t, "H.enter")]
 
     [] e.e = "Exit" ->
@@ -339,6 +360,10 @@ Step(S, e) ==
                          !.assigned = {z \in @ : z[3] # e.a}],
          bad |-> IfBad(NoFaultyCtx(P) => C.st \in {"on", "exiting"}, "C06.alt.pause") \cup
                  IfBad(NoFaultyCtx(P) => (S.cstk # <<>> /\ Last(S.cstk) = e.a), "C07.lifo")]
+
+    [] e.e = "Timer" ->       \* the with-block of AsyncTimer e.a has been left; e.b = its total_time
+        IF e.a \notin DOMAIN S.tm THEN [S |-> S, bad |-> {"H.unknown_ctx"}] ELSE
+        [S |-> S, bad |-> IfBad((NoFaultyCtx(P) /\ ~S.tm[e.a].loose) => e.b = S.tm[e.a].acc, "C06.timer")]
 
     [] e.e = "Read" ->
         [S |-> S,
